@@ -429,6 +429,9 @@ func resOf(t *Expr, i int) *Expr {
 
 func fieldOf(base *Expr, name string) *Expr {
 	switch base.Op {
+	case "ref":
+		// field access through a pointer to a described local
+		return fieldOf(base.Args[0], name)
 	case "struct":
 		for i, f := range base.Fields {
 			if f == name {
